@@ -93,8 +93,10 @@ CLAIMED = {
             "Discrete exploration (no numeric input). One observer, one actor, one computation and its replica; 'any order' is read as FIFO per channel. One listed finding (replica notifications for an unknown computation).", "4/C20", S),
     "C22": ("S", "The real Orchestrator/AgentsMgt (constructed without threads) receives, in every per-agent-FIFO interleaving, the value-change and end-of-computation messages produced by a real DPOP run "
                  "on the bench with symbolic cost tables, for three distributions; the stop order must be issued exactly at the last end-of-computation, and z3 decides that the reported cost/violation "
-                 "equal DCOP.solution_cost of the reported assignment and that the assignment is optimal.",
-            "PARTIAL: orchestrator accounting only. Thread scheduling, timeouts, run.py, the solve command and process mode are outside (no solver-based tool models OS threads); DPOP explored on its canonical schedule in quick.", "4/C22", S),
+                 "equal DCOP.solution_cost of the reported assignment and that the assignment is optimal. Also: the start-up phase (registration of used and spare agents through the real directory / "
+                 "discovery message path, deployment, computation registration, run order) in every interleaving, and Orchestrator.run() executed by a helper thread in lockstep with the orchestrator's "
+                 "own thread (every interleaving at its synchronisation points).",
+            "PARTIAL: the orchestrator's accounting, start-up and run loop. Pre-emptive thread scheduling at a finer grain than the synchronisation points, timeouts, run.py, the solve command and process mode are outside (no solver-based tool models OS threads); DPOP explored on its canonical schedule in quick.", "4/C22", S),
     "C23": ("S", "oneagent, adhoc, heur_comhost and gh_cgdp distribute() executed on real computation graphs with symbolic capacities, per-node symbolic footprints, zero/positive symbolic hosting costs, "
                  "symbolic routes, solver-chosen must_host hints and random draws; for every returned mapping z3 decides 'each computation once on a declared agent, hints honoured, footprint sums within capacity', "
                  "any exception other than ImpossibleDistributionException is a violation. Two listed findings (hints ignored by three methods; adhoc must_host capacity).",
